@@ -171,4 +171,11 @@ def r3_both_ends_checked(ctx: Ctx) -> None:
     ctx.floor("branch_mnemonics", 7)
 
 
-RULES = [r1_no_truncation, r2_bias_equals_length, r3_both_ends_checked]
+
+def rb_binding_agreement(ctx: Ctx) -> None:
+    from ..ownership import binding_agreement
+
+    binding_agreement(ctx)
+
+
+RULES = [r1_no_truncation, r2_bias_equals_length, r3_both_ends_checked, rb_binding_agreement]
